@@ -477,10 +477,23 @@ func (c *Ctx) checkCtorThresholds(fn *ssa.Function, stores map[string][]*ssa.Sto
 			c.Violation(fn, P.InstrPos(st), name+" not derived from Root.Height and Root.BranchFactor", "depends on {"+strings.Join(ds, ",")+"}: a reloaded tree must get thresholds bf^height and bf^(height+1), nothing else")
 		}
 	}
-	// grow = shrink * bf
-	if mul, ok := g[0].Val.(*ssa.BinOp); !ok || mul.Op != token.MUL {
+	// grow = shrink * bf (possibly both computed by one helper returning the pair)
+	gv, sv := g[0].Val, s[0].Val
+	if gi, _, ok := helperResult(gv); ok {
+		if si, _, ok2 := helperResult(sv); ok2 && sameCall(gv, sv) {
+			gv, sv = gi, si
+		}
+	}
+	if mul, ok := stripConv(gv).(*ssa.BinOp); ok && mul.Op == token.MUL {
+		if ir.Sym(stripConv(mul.X)) == ir.Sym(stripConv(sv)) || ir.Sym(stripConv(mul.Y)) == ir.Sym(stripConv(sv)) {
+			c.OK(P.InstrPos(g[0]), "growAfterSize = shrinkBelowSize·bf in "+ir.FuncName(fn), "same value multiplied once", false)
+		} else {
+			c.Violation(fn, P.InstrPos(g[0]), "growAfterSize is not shrinkBelowSize·branchFactor", "thresholds computed from different values")
+		}
+	} else if mul, ok := g[0].Val.(*ssa.BinOp); !ok || mul.Op != token.MUL {
 		c.Violation(fn, P.InstrPos(g[0]), "growAfterSize is not shrinkBelowSize·branchFactor", "the two thresholds must differ by exactly one factor of branchFactor")
 	} else {
+		mul := g[0].Val.(*ssa.BinOp)
 		same := ir.Sym(mul.X) == ir.Sym(s[0].Val) || ir.Sym(mul.Y) == ir.Sym(s[0].Val)
 		if same {
 			c.OK(P.InstrPos(g[0]), "growAfterSize = shrinkBelowSize·bf in "+ir.FuncName(fn), "same value multiplied once", false)
@@ -759,4 +772,52 @@ func firstInstr(m map[string]ssa.Instruction) ssa.Instruction {
 		}
 	}
 	return best
+}
+
+// helperResult: if v is the (i-th) result of a call to a repository function
+// with a single return statement, return that return operand and the mapping
+// of the helper's parameters to the call's arguments.
+func helperResult(v ssa.Value) (inner ssa.Value, env map[*ssa.Parameter]ssa.Value, ok bool) {
+	v = stripConv(v)
+	idx := 0
+	var call *ssa.Call
+	switch x := v.(type) {
+	case *ssa.Extract:
+		call, _ = x.Tuple.(*ssa.Call)
+		idx = x.Index
+	case *ssa.Call:
+		call = x
+	}
+	if call == nil {
+		return nil, nil, false
+	}
+	f := call.Call.StaticCallee()
+	if f == nil || f.Blocks == nil {
+		return nil, nil, false
+	}
+	rets := ir.Returns(f)
+	if len(rets) != 1 || idx >= len(rets[0].Results) {
+		return nil, nil, false
+	}
+	env = map[*ssa.Parameter]ssa.Value{}
+	for i, p := range f.Params {
+		if i < len(call.Call.Args) {
+			env[p] = call.Call.Args[i]
+		}
+	}
+	return rets[0].Results[idx], env, true
+}
+
+func sameCall(a, b ssa.Value) bool {
+	ca := func(v ssa.Value) *ssa.Call {
+		switch x := stripConv(v).(type) {
+		case *ssa.Extract:
+			c, _ := x.Tuple.(*ssa.Call)
+			return c
+		case *ssa.Call:
+			return x
+		}
+		return nil
+	}
+	return ca(a) != nil && ca(a) == ca(b)
 }
